@@ -2,7 +2,10 @@ module verif/harness
 
 go 1.23
 
-require github.com/simpleiot/simpleiot v0.0.0
+require (
+	github.com/kjx98/crc16 v0.0.0-20190915014410-d407ba22e1b5
+	github.com/simpleiot/simpleiot v0.0.0
+)
 
 require (
 	github.com/Wifx/gonetworkmanager/v2 v2.1.0 // indirect
@@ -24,7 +27,6 @@ require (
 	github.com/google/uuid v1.3.0 // indirect
 	github.com/influxdata/influxdb-client-go/v2 v2.10.0 // indirect
 	github.com/influxdata/line-protocol v0.0.0-20210311194329-9aa0e372d097 // indirect
-	github.com/kjx98/crc16 v0.0.0-20190915014410-d407ba22e1b5 // indirect
 	github.com/klauspost/compress v1.17.2 // indirect
 	github.com/mattn/go-colorable v0.1.13 // indirect
 	github.com/mattn/go-isatty v0.0.19 // indirect
